@@ -406,7 +406,7 @@ Proof.
                else map snd st) =
               map snd (if sort then map (fun i => nth i st (0, [])) (argsort (map (fun c => (- Z.of_nat (length c))%Z) (map snd st))) else st)).
   { destruct sort; [|reflexivity]. rewrite map_map. apply map_ext. intros i.
-    change (@nil nat) with (snd (0, @nil nat)). apply map_nth. }
+    exact (map_nth snd st (0, []) i). }
   rewrite E in H. clear E.
   destruct ret.
   - match type of H with match ?X with _ => _ end = _ => destruct X end; [|discriminate]. now inversion H.
